@@ -138,3 +138,19 @@ impl<'a> core::iter::Sum<&'a Element> for Element {
         iter.fold(Self::zero(), core::ops::Add::add)
     }
 }
+
+#[cfg(decaf377_verif)]
+impl Element {
+    /// Verification-only read access to the internal extended coordinates (X, Y, Z, T).
+    pub fn verif_xyzt(&self) -> [Fq; 4] {
+        [self.inner.x, self.inner.y, self.inner.z, self.inner.t]
+    }
+
+    /// Verification-only: wrap arbitrary affine coordinates without any check
+    /// (used to offer adversarial coordinates to the R1CS witness allocation).
+    pub fn verif_from_affine_unchecked(x: Fq, y: Fq) -> Self {
+        Self {
+            inner: EdwardsProjective::new_unchecked(x, y, x * y, Fq::ONE),
+        }
+    }
+}
